@@ -215,6 +215,13 @@ theorem installFresh_of {items : List Nat} {g : G} {i : Nat} (hd : DbIn items g)
   · exact f3 w hw ha j hji e hj hk
   · rw [hd j hji] at hj; cases hj
 
+/-- the check is also complete: it rejects nothing `InstallFresh` accepts, as long as the writes land in `items` -/
+theorem installFreshN_of {items : List Nat} {g : G} {i : Nat} (hf : InstallFresh g i)
+    (hw : ∀ w ∈ (g.txns i).tracked.filter (·.writes), w.item ∈ items) : InstallFreshN items g i := by
+  intro hpc
+  obtain ⟨f1, f2, f3, f4⟩ := hf hpc
+  exact ⟨f1, f2, fun w hw' ha j _ e hj hk => f3 w hw' ha j e (Option.mem_def.mp hj) hk, f4, hw⟩
+
 /-- the checker is sound: on a run that is `Good`, `GoodUN` over an item universe holding the committed data gives `GoodU` -/
 theorem goodU_of {items : List Nat} : ∀ (sched : List (Nat × List Nat)) (g : G), DbIn items g → Good g sched → GoodUN items g sched →
     GoodU g sched
